@@ -22,6 +22,7 @@ func init() {
 			"order-independent (min/max over the unique nonce key, deletes, idempotent flags; the scratch field maxForkHeaderEpoch is verified to be written before its only reader in each iteration and read nowhere else); " +
 			"(ii) within a nonce: computeForkInfo, folded over the arrival-ordered header slice, returns either its accumulator unchanged or values of the current header, and takes the current header only under a strict " +
 			"lexicographic comparison (round, then hash) - a strict total order on distinct headers, hence independent of arrival order; a missing hash tie-break is reported. " +
+			"The fork record is never replaced by a value without the rollBackNonce sentinel; no in-place deletion at an ascending loop index without re-examining the index. " +
 			"Not decided (value-level): that shouldSignalFork compares the right quantities; header states (BHReceivedTooLate) that themselves depend on arrival time.",
 		Run: runC20,
 	})
